@@ -391,7 +391,86 @@ func runC07(c *Ctx) {
 		c.Out.Count(fmt.Sprintf("depth.%d", depthOf(tc.prog)))
 	}
 	coord.ResetLog()
+	runC07BeginRefused(c)
 	runC07Integrations(c, rng)
+}
+
+// ---- an inner scope that has to begin a transaction of its own (RequiresNew) and is refused by the
+// coordinator: it fails without running its business, and the enclosing transaction's xid, role and name
+// are intact afterwards, so that it still completes its own second phase (decided by the oracle alone)
+
+func runC07BeginRefused(c *Ctx) {
+	coord := Boot()
+	n := 0
+	for _, outerMode := range []byte{'R', 'N'} {
+		for _, outerOK := range []bool{true, false} {
+			for _, fault := range []string{"refused", "transport"} {
+				for _, swallow := range []bool{false, true} {
+					n++
+					cid := fmt.Sprintf("c07-bf-%d", n)
+					if !c.Want(cid) {
+						continue
+					}
+					coord.ResetLog()
+					inner := cid + "-inner"
+					coord.Script = func(s *FakeSession, kind string, m message.RpcMessage) Action {
+						if b, ok := m.Body.(message.GlobalBeginRequest); ok && b.TransactionName == inner {
+							if fault == "transport" {
+								return Action{TransportE: true}
+							}
+							return Action{Body: message.GlobalBeginResponse{AbstractTransactionResponse: failHead("begin refused")}}
+						}
+						return Action{}
+					}
+					var before, after, outerXid string
+					var innerErr, outerErr error
+					innerRan := false
+					crash := safeCall(func() {
+						ctx := tm.InitSeataContext(context.Background())
+						outerErr = tm.WithGlobalTx(ctx, &tm.GtxConfig{Name: cid + "-outer", Propagation: propagationOf(outerMode), Timeout: 30 * time.Second}, func(cx context.Context) error {
+							outerXid = tm.GetXID(cx)
+							before = showVar(cx, cid+"-")
+							innerErr = tm.WithGlobalTx(cx, &tm.GtxConfig{Name: inner, Propagation: tm.RequiresNew, Timeout: 30 * time.Second}, func(context.Context) error {
+								innerRan = true
+								return nil
+							})
+							after = showVar(cx, cid+"-")
+							if innerErr != nil && !swallow {
+								return innerErr
+							}
+							if !outerOK {
+								return errors.New("business failed")
+							}
+							return nil
+						})
+					})
+					coord.Script = nil
+					commits, rollbacks := 0, 0
+					for _, l := range coord.Snapshot() {
+						switch b := l.Msg.Body.(type) {
+						case message.GlobalCommitRequest:
+							if b.Xid == outerXid {
+								commits++
+							}
+						case message.GlobalRollbackRequest:
+							if b.Xid == outerXid {
+								rollbacks++
+							}
+						}
+					}
+					wantCommit := outerOK && swallow
+					okEnd := (wantCommit && commits == 1 && rollbacks == 0) || (!wantCommit && commits == 0 && rollbacks == 1)
+					ok := crash == "" && innerErr != nil && !innerRan && before == after && outerXid != "" && okEnd && (wantCommit == (outerErr == nil))
+					c.Out.Case(cid, "C07", "skip", "skip")
+					c.Out.Oracle(cid, ok, "begin_refused_inside_a_transaction", fmt.Sprintf("outer %c ok=%v fault=%s swallow=%v: inner err=%v ran=%v; enclosing %s -> %s; outer err=%v; commits=%d rollbacks=%d for %s crash=%s",
+						outerMode, outerOK, fault, swallow, innerErr, innerRan, before, after, outerErr, commits, rollbacks, outerXid, crash))
+					c.Out.Tag(cid, "nontrivial=1")
+					c.Out.Count("begin-refused." + fault)
+				}
+			}
+		}
+	}
+	coord.ResetLog()
 }
 
 func findScope(p []*scopeT, id string) *scopeT {
